@@ -32,11 +32,11 @@ FEATURES = {"ay", "precise-border", "embedded-roms", "autoload", "strum", "zlib"
 RULES = {
     "R-attr": "doc comments and #[inline]/#[allow]/#[rustfmt::skip]/#[cfg_attr(feature=\"strum\")]/"
               "#[non_exhaustive]/#[must_use] dropped; derive lists filtered to Clone,Copy,PartialEq,Eq,Debug",
-    "R-cfg": "#[cfg(..)] resolved for feature set `full` (+sound); dead branch dropped",
+    "R-cfg": "#[cfg(..)] resolved for feature set `full` (+sound); dead branch dropped; `cfg!(..)` replaced by its value",
     "R-vis": "visibility normalised to pub (fields and fns)",
     "R-arraypat": "`let [a, b] = E;` -> `let vx_t = E; let a = vx_t[0]; let b = vx_t[1];`",
     "R-shim": "`E.to_le_bytes()` / `u16::from_le_bytes(E)` renamed to assumed-contract shims "
-              "vx_u16_to_le_bytes / vx_u16_from_le_bytes",
+              "vx_u16_to_le_bytes / vx_u16_from_le_bytes (/ vx_u32_from_le_bytes)",
     "R-sig": "contract text inserted between signature and body; loop invariants before loop bodies; "
              "ghost blocks before named statements; return value named",
     "R-derive": "derive lists containing PartialEq+Eq get Verus' ghost marker `Structural` added (states that "
@@ -132,6 +132,13 @@ def cfg_target_end(msk, i):
 def apply_cfg(text, applied):
     while True:
         msk = mask(text)
+        mm = re.search(r"\bcfg!\(", msk)
+        if mm:
+            close = match_close(msk, mm.end() - 1)
+            val = eval_cfg(text[mm.end():close])
+            applied.add("R-cfg")
+            text = text[:mm.start()] + ("true" if val else "false") + text[close + 1:]
+            continue
         m = re.search(r"#\[cfg\(", msk)
         if not m:
             return text
@@ -258,6 +265,7 @@ def apply_shim(text, applied):
     new = re.sub(r"((?:[A-Za-z_][\w]*(?:\.[A-Za-z_]\w*)*)(?:\([^()]*\))?)\.to_le_bytes\(\)",
                  r"vx_u16_to_le_bytes(\1)", text)
     new = re.sub(r"\bu16::from_le_bytes\(", "vx_u16_from_le_bytes(", new)
+    new = re.sub(r"\bu32::from_le_bytes\(", "vx_u32_from_le_bytes(", new)
     if new != text:
         applied.add("R-shim")
     return new
